@@ -435,10 +435,13 @@ def gen_opt_case(rng, k, tied=False):
     return dict(samples=samples, weights=w, size=size, seed=int(rng.integers(0, 2 ** 31)), wkind=kind, tied=tied)
 
 
-def opt_run(o, seed):
+def opt_run(o, seed, rank=0):
     """what is observed of one (real or simulated) process"""
     _, obs = small_model()
-    random.seed(seed)            # `sample_parameters` draws the processing order with the global `random`
+    # `sample_parameters` draws the processing order with the global `random`.  Separate MPI processes do not share a
+    # random state: every simulated rank other than 0 gets its own (rank 0 keeps `seed`, so that the single-process
+    # reference and the model's broadcast order are those of rank 0)
+    random.seed(seed if rank == 0 else (seed * 1000003 + 7919 * rank) % (2 ** 31))
     o.seen = []
     pd, sd = o.generate_profiles(0, obs.wavenumberGrid)
     seen_profiles = o.seen
@@ -472,7 +475,7 @@ def eval_opt_case(ctx, c):
     ref = opt_run(o, seed)
 
     def target(rank, nproc):
-        return opt_run(make_optimizer(samples, weights), seed)
+        return opt_run(make_optimizer(samples, weights), seed, rank)
     try:
         out = fakempi.run_ranks(size, target, timeout=300.0)
     except fakempi.FakeMPIError as e:
